@@ -1,0 +1,62 @@
+//go:build verif
+
+package dataplane
+
+import (
+	"context"
+	"io"
+
+	"github.com/scionproto/scion/pkg/addr"
+	"github.com/scionproto/scion/pkg/snet"
+	"github.com/scionproto/scion/private/ringbuf"
+)
+
+// VerifEncoder exposes the SIG frame encoder to the verification harness.
+type VerifEncoder struct{ e *encoder }
+
+func NewVerifEncoder(sessID uint8, streamID uint32, mtu uint16) *VerifEncoder {
+	return &VerifEncoder{newEncoder(sessID, streamID, mtu)}
+}
+
+// VerifMinMTU is the smallest frame size a session accepts.
+const VerifMinMTU = minMTU
+
+func (v *VerifEncoder) Write(pkt []byte) { v.e.Write(pkt) }
+func (v *VerifEncoder) Close()           { v.e.Close() }
+
+// Read returns a copy of the next frame, nil when the encoder is closed and drained.
+func (v *VerifEncoder) Read() []byte {
+	f := v.e.Read()
+	if f == nil {
+		return nil
+	}
+	return append([]byte{}, f...)
+}
+
+// VerifWorker exposes the ingress worker (decapsulation and reassembly).
+type VerifWorker struct{ w *worker }
+
+func NewVerifWorker(sessID uint8, out io.WriteCloser) *VerifWorker {
+	remote := &snet.UDPAddr{IA: addr.MustParseIA("1-ff00:0:1")}
+	return &VerifWorker{newWorker(remote, sessID, out, IngressMetrics{})}
+}
+
+// Feed hands one received frame to the worker exactly as IngressServer.read does: buffer from
+// the free-frame pool, length and version checks, then processFrame. Returns false if the
+// frame was rejected before reaching the worker.
+func (v *VerifWorker) Feed(raw []byte) bool {
+	frames := make(ringbuf.EntryList, 1)
+	if newFrameBufs(frames) != 1 {
+		panic("no frame buffer")
+	}
+	frame := frames[0].(*frameBuf)
+	n := copy(frame.raw, raw)
+	if n < sigHdrSize || frame.raw[0] != 0 {
+		frame.Release()
+		return false
+	}
+	frame.frameLen = n
+	frame.sessId = frame.raw[1]
+	v.w.processFrame(context.Background(), frame)
+	return true
+}
